@@ -18,7 +18,8 @@ EXPLANATION = (
     "heap, not equality); an ndarray assigned through [] must not share memory with the target. (2) A whole-package may-write "
     "rule: no function writes (attribute/subscript store, augmented assignment, mutating method, inplace=True) through a "
     "parameter other than self, directly, through local aliases or through callees (fixpoint over the resolved call graph); one "
-    "named accumulator is exempt. to_df/from_df/export (pandas) are covered by (2).")
+    "named accumulator is exempt. to_df/from_df/export (pandas) are covered by (2). "
+    "Also: selections by a Dimension holding all items (a renaming) yield independent arrays; drawing a Sankey diagram writes into none of the system's arrays (stores through views and boolean-mask stores are modelled).")
 TECHNIQUE = "static analysis: abstract interpretation with buffer identities and heap snapshots + interprocedural may-write (effect) analysis"
 
 
